@@ -50,6 +50,16 @@ pub enum IoOp {
     FillBufConsume(Amt),
     /// BufRead::read_until with a delimiter taken from position k of the contents (or absent)
     ReadUntil(Amt),
+    /// Read::read_vectored into three destinations of the given lengths
+    ReadVectored(u32, u32, u32),
+    /// Write::write_vectored from three sources of the given lengths
+    WriteVectored(u32, u32, u32),
+    /// Read::bytes().take(k)
+    Bytes(u32),
+    /// std::io::copy(&mut buffer, &mut Vec)
+    CopyOut,
+    /// Read::take(k).read_to_end
+    TakeToEnd(u32),
 }
 
 #[derive(Debug, Clone, PartialEq, Eq, Hash, Serialize, Deserialize)]
@@ -97,13 +107,26 @@ pub trait ByteDeq {
     fn s_read_to_end(&mut self, v: &mut Vec<u8>) -> std::io::Result<usize>;
     fn s_write_fmt(&mut self, s: &str) -> std::io::Result<()>;
     fn s_read_until(&mut self, delim: u8, v: &mut Vec<u8>) -> std::io::Result<usize>;
+    fn s_read_vectored(&mut self, d: [&mut [u8]; 3]) -> std::io::Result<usize>;
+    fn s_write_vectored(&mut self, s: [&[u8]; 3]) -> std::io::Result<usize>;
+    fn s_bytes(&mut self, k: usize) -> Vec<Result<u8, String>>;
+    fn s_copy_out(&mut self, v: &mut Vec<u8>) -> std::io::Result<u64>;
+    fn s_take_to_end(&mut self, k: u64, v: &mut Vec<u8>) -> std::io::Result<usize>;
     // embedded-io (Err(String) = returned an error; None = Pending for async)
     fn e_write(&mut self, api: Api, s: &[u8]) -> Option<Result<usize, String>>;
     fn e_flush(&mut self, api: Api) -> Option<Result<(), String>>;
     fn e_read(&mut self, api: Api, d: &mut [u8]) -> Option<Result<usize, String>>;
     fn e_fill_buf(&mut self, api: Api) -> Option<Result<Vec<u8>, String>>;
     fn e_consume(&mut self, api: Api, k: usize);
+    /// provided methods of the embedded traits: Ok(Ok) = done, Ok(Err(true)) = UnexpectedEof / WriteZero, Ok(Err(false)) = other error
+    fn e_read_exact(&mut self, api: Api, d: &mut [u8]) -> Option<Result<(), bool>>;
+    fn e_write_all(&mut self, api: Api, s: &[u8]) -> Option<Result<(), String>>;
 }
+
+#[cfg(feature = "eio")]
+use embedded_io::ReadExactError;
+#[cfg(all(feature = "eio-async", not(feature = "eio")))]
+use embedded_io_async::ReadExactError;
 
 #[cfg(feature = "eio-async")]
 fn poll_once<F: std::future::Future>(f: F) -> Option<F::Output> {
@@ -184,6 +207,44 @@ impl<const N: usize> ByteDeq for CircularBuffer<N, u8> {
     }
     fn s_read_until(&mut self, delim: u8, v: &mut Vec<u8>) -> std::io::Result<usize> {
         BufRead::read_until(self, delim, v)
+    }
+    fn s_read_vectored(&mut self, d: [&mut [u8]; 3]) -> std::io::Result<usize> {
+        let [a, b, c] = d;
+        let mut bufs = [std::io::IoSliceMut::new(a), std::io::IoSliceMut::new(b), std::io::IoSliceMut::new(c)];
+        Read::read_vectored(self, &mut bufs)
+    }
+    fn s_write_vectored(&mut self, s: [&[u8]; 3]) -> std::io::Result<usize> {
+        let bufs = [std::io::IoSlice::new(s[0]), std::io::IoSlice::new(s[1]), std::io::IoSlice::new(s[2])];
+        Write::write_vectored(self, &bufs)
+    }
+    fn s_bytes(&mut self, k: usize) -> Vec<Result<u8, String>> {
+        Read::bytes(Read::by_ref(self)).take(k).map(|r| r.map_err(|e| e.to_string())).collect()
+    }
+    fn s_copy_out(&mut self, v: &mut Vec<u8>) -> std::io::Result<u64> {
+        std::io::copy(self, v)
+    }
+    fn s_take_to_end(&mut self, k: u64, v: &mut Vec<u8>) -> std::io::Result<usize> {
+        Read::take(Read::by_ref(self), k).read_to_end(v)
+    }
+    #[allow(unused_variables)]
+    fn e_read_exact(&mut self, api: Api, d: &mut [u8]) -> Option<Result<(), bool>> {
+        match api {
+            #[cfg(feature = "eio")]
+            Api::Eio => Some(embedded_io::Read::read_exact(self, d).map_err(|e| matches!(e, ReadExactError::UnexpectedEof))),
+            #[cfg(feature = "eio-async")]
+            Api::EioAsync => poll_once(embedded_io_async::Read::read_exact(self, d)).map(|r| r.map_err(|e| matches!(e, ReadExactError::UnexpectedEof))),
+            _ => panic!("api not compiled in"),
+        }
+    }
+    #[allow(unused_variables)]
+    fn e_write_all(&mut self, api: Api, s: &[u8]) -> Option<Result<(), String>> {
+        match api {
+            #[cfg(feature = "eio")]
+            Api::Eio => Some(embedded_io::Write::write_all(self, s).map_err(|e| format!("{e:?}"))),
+            #[cfg(feature = "eio-async")]
+            Api::EioAsync => poll_once(embedded_io_async::Write::write_all(self, s)).map(|r| r.map_err(|e| format!("{e:?}"))),
+            _ => panic!("api not compiled in"),
+        }
     }
     #[allow(unused_variables)]
     fn e_write(&mut self, api: Api, s: &[u8]) -> Option<Result<usize, String>> {
@@ -463,7 +524,10 @@ pub fn run_io_case(case: &IoCase) -> Result<u64, String> {
                         guard("extend(&u8)", || a.b.extend_ref(&src))?;
                         Ok(m)
                     }
-                    // the provided methods of the embedded traits are not part of the property
+                    (IoOp::WriteAll(_), _) => match guard("write_all", || a.b.e_write_all(api, &src))? {
+                        None => return Err(ctx("the async write_all returned Pending".into())),
+                        Some(r) => r.map(|_| m),
+                    },
                     (_, _) => match guard("write", || a.b.e_write(api, &src))? {
                         None => return Err(ctx("the async write returned Pending".into())),
                         Some(r) => r,
@@ -509,6 +573,36 @@ pub fn run_io_case(case: &IoCase) -> Result<u64, String> {
             IoOp::Read(d) | IoOp::ReadExact(d) => {
                 let d = *d as usize;
                 let exact = matches!(op, IoOp::ReadExact(_)) && api == Api::Std;
+                if matches!(op, IoOp::ReadExact(_)) && api != Api::Std {
+                    // the provided read_exact of the embedded traits against std's in the twin
+                    let mut dst = vec![0xA5u8; d];
+                    let r = match guard("read_exact", || a.b.e_read_exact(api, &mut dst))? {
+                        None => return Err(ctx("the async read_exact returned Pending".into())),
+                        Some(r) => r,
+                    };
+                    let t = twin.as_mut().unwrap();
+                    let mut d2 = vec![0xA5u8; d];
+                    let tr = guard("std read_exact (twin)", || t.b.s_read_exact(&mut d2))?;
+                    match (r, tr) {
+                        (Ok(()), Ok(())) => {
+                            if d > len || dst != d2 || dst[..] != model[..d] {
+                                return Err(ctx(format!("read_exact delivered {:?}, std delivered {:?}, contents were {:?}", dst, d2, model)));
+                            }
+                            model.drain(..d);
+                        }
+                        (Err(true), Err(e)) if e.kind() == std::io::ErrorKind::UnexpectedEof && d > len => {
+                            model.clear();
+                        }
+                        (r, tr) => return Err(ctx(format!("embedded read_exact returned {:?}, std read_exact in the same state returned {:?}", r, tr.map_err(|e| e.to_string())))),
+                    }
+                    let c = a.b.contents();
+                    if c != model || t.b.contents() != c {
+                        return Err(ctx(format!("contents after read_exact {:?} (std twin {:?}), expected {:?}", c, t.b.contents(), model)));
+                    }
+                    a.poison()?;
+                    t.poison()?;
+                    continue;
+                }
                 let mut dst = vec![0xA5u8; d];
                 let want = d.min(len);
                 // the read-everything probe that ends every enumerated case does not count
@@ -642,6 +736,98 @@ pub fn run_io_case(case: &IoCase) -> Result<u64, String> {
                 }
                 model.drain(..want.len());
             }
+            IoOp::ReadVectored(d1, d2, d3) => {
+                if api != Api::Std {
+                    continue;
+                }
+                let ds = [*d1 as usize, *d2 as usize, *d3 as usize];
+                let total: usize = ds.iter().sum();
+                let (mut b1, mut b2, mut b3) = (vec![0xA5u8; ds[0]], vec![0xA5u8; ds[1]], vec![0xA5u8; ds[2]]);
+                let r = guard("read_vectored", || a.b.s_read_vectored([&mut b1[..], &mut b2[..], &mut b3[..]]))?.map_err(|e| e.to_string());
+                let k = match r {
+                    Ok(k) => k,
+                    Err(e) => return Err(ctx(format!("read_vectored returned an error: {e}"))),
+                };
+                // validity: like read() into the concatenation of the destinations, short counts allowed
+                // (the provided method fills the first non-empty destination only), but never zero
+                // while there are bytes and room, never more than either
+                if k > total.min(len) || (k == 0 && total.min(len) > 0) {
+                    return Err(ctx(format!("read_vectored returned {k} with {len} bytes buffered and destinations of {ds:?}")));
+                }
+                let mut cat = b1.clone();
+                cat.extend_from_slice(&b2);
+                cat.extend_from_slice(&b3);
+                if cat[..k] != model[..k] {
+                    return Err(ctx(format!("read_vectored reported {k} bytes; the destinations hold {:?}, expected them to start with {:?}", cat, &model[..k])));
+                }
+                if cat[k..].iter().any(|b| *b != 0xA5) {
+                    return Err(ctx(format!("read_vectored reported {k} bytes but wrote beyond them: {:?}", cat)));
+                }
+                if k < total.min(len) {
+                    flags |= iofl::PARTIAL;
+                }
+                model.drain(..k);
+            }
+            IoOp::WriteVectored(m1, m2, m3) => {
+                if api != Api::Std {
+                    continue;
+                }
+                let srcs = [pay.take(*m1 as usize), pay.take(*m2 as usize), pay.take(*m3 as usize)];
+                let total: usize = srcs.iter().map(|s| s.len()).sum();
+                let r = guard("write_vectored", || a.b.s_write_vectored([&srcs[0][..], &srcs[1][..], &srcs[2][..]]))?.map_err(|e| e.to_string());
+                let k = match r {
+                    Ok(k) => k,
+                    Err(e) => return Err(ctx(format!("write_vectored returned an error: {e}"))),
+                };
+                // validity: a prefix of the concatenated sources was accepted; the buffer never refuses data,
+                // so at least the first non-empty source is taken whole
+                let first = srcs.iter().map(|s| s.len()).find(|l| *l > 0).unwrap_or(0);
+                if k > total || k < first {
+                    return Err(ctx(format!("write_vectored returned {k} for sources of {:?}", [m1, m2, m3])));
+                }
+                let cat: Vec<u8> = srcs.concat();
+                if k > n - len.min(n) {
+                    flags |= iofl::OVERWRITE | iofl::PARTIAL;
+                }
+                model.extend_from_slice(&cat[..k]);
+                if model.len() > n {
+                    let cut = model.len() - n;
+                    model.drain(..cut);
+                }
+            }
+            IoOp::Bytes(k) => {
+                if api != Api::Std {
+                    continue;
+                }
+                let k = *k as usize;
+                let got = guard("bytes()", || a.b.s_bytes(k))?;
+                let want: Vec<Result<u8, String>> = model.iter().take(k).map(|b| Ok(*b)).collect();
+                if got != want {
+                    return Err(ctx(format!("bytes().take({k}) yielded {:?}, expected {:?}", got, want)));
+                }
+                if k < len {
+                    flags |= iofl::PARTIAL;
+                }
+                model.drain(..k.min(len));
+            }
+            IoOp::CopyOut | IoOp::TakeToEnd(_) => {
+                if api != Api::Std {
+                    continue;
+                }
+                let lim = if let IoOp::TakeToEnd(k) = op { (*k as usize).min(len) } else { len };
+                let mut v = vec![3u8];
+                let r = match op {
+                    IoOp::TakeToEnd(k) => guard("take().read_to_end", || a.b.s_take_to_end(*k as u64, &mut v))?.map_err(|e| e.to_string()),
+                    _ => guard("io::copy", || a.b.s_copy_out(&mut v))?.map(|c| c as usize).map_err(|e| e.to_string()),
+                };
+                if r != Ok(lim) || v[0] != 3 || v[1..] != model[..lim] {
+                    return Err(ctx(format!("{op:?} returned {:?} and delivered {:?}, expected {:?}", r, &v[1..], &model[..lim])));
+                }
+                if lim < len {
+                    flags |= iofl::PARTIAL;
+                }
+                model.drain(..lim);
+            }
             IoOp::Consume(k) => {
                 let k = k.resolve(len);
                 if k > len {
@@ -684,7 +870,7 @@ fn amts(len: usize) -> Vec<Amt> {
     v
 }
 
-pub fn enum_ops(n: usize, len: usize) -> Vec<IoOp> {
+pub fn enum_ops(n: usize, len: usize, full: bool) -> Vec<IoOp> {
     let mut ops = vec![IoOp::FillBuf, IoOp::Flush, IoOp::ReadToEnd];
     for m in 0..=(2 * n + 1) as u32 {
         ops.push(IoOp::Write(m));
@@ -708,12 +894,33 @@ pub fn enum_ops(n: usize, len: usize) -> Vec<IoOp> {
         ops.push(IoOp::FillBufConsume(k));
         ops.push(IoOp::ReadUntil(k));
     }
+    ops.push(IoOp::CopyOut);
+    for k in 0..=(len + 1) as u32 {
+        ops.push(IoOp::Bytes(k));
+        ops.push(IoOp::TakeToEnd(k));
+    }
+    // vectored transfers: every split of the destinations / sources into three parts (small capacities),
+    // two parts plus a fixed tail otherwise
+    let lim = (n + 1) as u32;
+    for d1 in 0..=lim {
+        for d2 in 0..=lim {
+            if n <= 4 && full {
+                for d3 in 0..=lim {
+                    ops.push(IoOp::ReadVectored(d1, d2, d3));
+                    ops.push(IoOp::WriteVectored(d1, d2, d3));
+                }
+            } else {
+                ops.push(IoOp::ReadVectored(d1, d2, 2));
+                ops.push(IoOp::WriteVectored(d1, d2, 1));
+            }
+        }
+    }
     ops
 }
 
 pub fn enum_cases(n: usize, start: usize, len: usize, api: Api, thorough: bool) -> Vec<IoCase> {
     let mut out = Vec::new();
-    let ops = enum_ops(n, len);
+    let ops = enum_ops(n, len, true);
     let mk = |ops: Vec<IoOp>, route: u8, pattern: u8| IoCase { n: n as u32, start: start as u32, len: len as u32, route, pattern, api, ops };
     for (k, op) in ops.iter().enumerate() {
         for (pi, pattern) in [0x00u8, 0xFF, 0x5A].iter().enumerate() {
@@ -725,6 +932,7 @@ pub fn enum_cases(n: usize, start: usize, len: usize, api: Api, thorough: bool) 
     // all pairs of operations for the smaller capacities (bounded interleavings, depth 2 + read-back)
     let pair_cap = if thorough { 6 } else { 4 };
     if n <= pair_cap {
+        let ops = enum_ops(n, len, false);
         for a in &ops {
             for b in &ops {
                 out.push(mk(vec![a.clone(), b.clone(), IoOp::Read((n + 1) as u32)], 0, 0xFF));
@@ -755,6 +963,11 @@ pub fn io_case_strategy(api: Api, max_ops: usize) -> proptest::strategy::BoxedSt
                 4 => amt.clone().prop_map(IoOp::FillBufConsume),
                 2 => amt.prop_map(IoOp::ReadUntil),
                 1 => Just(IoOp::Flush),
+                3 => (sz.clone(), sz.clone(), sz.clone()).prop_map(|(a, b, c)| IoOp::ReadVectored(a, b, c)),
+                2 => (sz.clone(), sz.clone(), sz.clone()).prop_map(|(a, b, c)| IoOp::WriteVectored(a, b, c)),
+                1 => sz.clone().prop_map(IoOp::Bytes),
+                1 => sz.clone().prop_map(IoOp::TakeToEnd),
+                1 => Just(IoOp::CopyOut),
             ];
             (Just(n), any::<u16>(), any::<u16>(), 0u8..3, proptest::sample::select(vec![0u8, 0xFF, 0x5A]), proptest::collection::vec(op, 0..=max_ops))
         })
